@@ -865,6 +865,7 @@ pub fn run_async_t<T: Spec>(input: &Arc<Vec<u8>>, buffered: &[u64], script: &ASc
     let max_polls = 4 * (input.len() + script.events.len()) + 4 * max_items + 64;
     let mut exec_error = None;
     let mut errors_seen = 0usize;
+    let mut nones = 0usize;
 
     // The source is shared through a cell so that counters can be read afterwards.
     struct Shared(std::rc::Rc<std::cell::RefCell<SimAsyncRead>>);
@@ -929,7 +930,11 @@ pub fn run_async_t<T: Spec>(input: &Arc<Vec<u8>>, buffered: &[u64], script: &ASc
                     }
                     Ok(None) => {
                         evs.push(Ev::None);
-                        break;
+                        // "ending once": a caller that asks again after the end (twice) must get None again
+                        nones += 1;
+                        if nones > 2 {
+                            break;
+                        }
                     }
                     Err(ExecError::LostWake) => {
                         exec_error = Some("lost wake-up".to_string());
